@@ -88,7 +88,10 @@ func processMongoLogStream(r io.Reader, outWriter io.Writer, bar *progressbar.Pr
 			addOneToBar(bar)
 			continue
 		}
-		fmt.Fprintln(outWriter, string(out))
+		if _, err := fmt.Fprintln(outWriter, string(out)); err != nil {
+			// a failed or short write must not be reported as success (disk full, closed pipe)
+			return fmt.Errorf("failed to write redacted output: %w", err)
+		}
 		// addOneToBar already handles the nil check for 'bar', so no need for an 'if' here.
 		addOneToBar(bar)
 	}
